@@ -35,6 +35,8 @@ var Pool = []ReSpec{
 	{Name: "cache2", Pattern: `(\w)(\d)`, CacheSize: 2},
 	{Name: "lookbehind-ic", Pattern: `(?<=b)a+(?<t>é)?`, Opts: regexp2.IgnoreCase},
 	{Name: "multiline", Pattern: `^(\w+)$`, Opts: regexp2.Multiline},
+	// a limit that doubling from the initial 64 slots cannot reach: the last growth step is capped
+	{Name: "stack65", Pattern: `^(?:ab)*c`, Stack: 65},
 }
 
 // Compile builds a fresh Regexp for the spec.
